@@ -9,7 +9,8 @@
 (* The content is what CssDecode says the literal denotes (TLA+ decodes     *)
 (* both the source and every emitted token).  The event is explained iff    *)
 (* every observable satisfies the property, or is exactly what the          *)
-(* deviation model StrEsc!RsObs predicts and that deviation is listed.      *)
+(* deviation model StrEsc!RsObs predicts with the listed open deviations    *)
+(* switched on (the responsible deviations are then reported).              *)
 EXTENDS StrEsc, Json, IOUtils, TLCExt
 
 Rec == ndJsonDeserialize(IOEnv.TRACE)
@@ -25,12 +26,13 @@ Explained(e) ==
   /\ ("content" \in DOMAIN e => e.content = d.s)
   /\ LET bad == BadFields(e.obs, d.s) IN
      IF bad = {} THEN TRUE
-     ELSE LET rs == RsObs(e.lit) IN
-          /\ \A f \in bad : FieldDevs[f] \in SeqToSet(e.devs) /\ KnownField(f, e.obs, rs)
-          /\ \A f \in bad : PrintT(<<"MSG", "KNOWN", FieldDevs[f], e.case>>)
+     ELSE LET D  == SeqToSet(e.devs)
+              rs == RsObs(e.lit, D) IN
+          /\ \A f \in bad : KnownField(f, e.obs, rs)
+          /\ \A dv \in UNION {Responsible(f, e.lit, D) : f \in bad} : PrintT(<<"MSG", "KNOWN", dv, e.case>>)
 
 Next == /\ l <= Len(Rec)
-        /\ Explained(Rec[l])
+        /\ Explained(Rec[l]) = TRUE
         /\ l' = l + 1
 Spec == Init /\ [][Next]_l
 
